@@ -85,9 +85,8 @@ pub fn reference(input: &[u8]) -> Expect {
         if sig[1].1 == 'X' {
             return Expect::Unspecified("upper-case-0X-prefix");
         }
-        if sig[1].0 != sig[0].0 + 1 {
-            return Expect::Unspecified("white-space-inside-prefix");
-        }
+        // White space between the 0 and the x: "decoding ignores whitespace anywhere" - it is ignored there too.
+        // (First classed as undecided; two independent round-7 submissions broke exactly this spelling.)
         digits = &sig[2..];
     }
     let mut nibbles = Vec::with_capacity(digits.len());
@@ -909,7 +908,7 @@ const FIXED_MALFORMED: &[&[u8]] = &[
     b"0x12\0", b"\0", b"\xff", b"12\xff", b"\xc3", b"0x\xc3\x28", b"12\xed\xa0\x8034",
 ];
 
-const FIXED_UNSPECIFIED: &[&str] = &["0X00", "0 x00", "0\nx00", "0X", "00\u{a0}11", "\u{feff}0x00", "0 X0"];
+const FIXED_UNSPECIFIED: &[&str] = &["0X00", "0X", "00\u{a0}11", "\u{feff}0x00", "0 X0", "0\u{a0}x00"];
 
 /// (c) every byte value at six positions: as a lone input, next to one
 /// digit, inside and after a prefixed pair, between two pairs.
@@ -954,10 +953,10 @@ fn setup(ctx: &Ctx) {
 
 pub fn run(ctx: &mut Ctx) {
     setup(ctx);
-    ctx.rule = "CLI subprocess runs of the overflow-checked build, input by stdin (default and explicit `-`), by file (with decoy stdin), and - in a fixed table of lengths 0..70000 and malformed texts - by paths that are not regular files (/dev/stdin, a FIFO). (a) byte strings of length 0..=4096 (uniform bytes; all-0, all-ff, every byte value in turn, text, white-space bytes, hex-looking text, UTF-8, trailing line ends, bytes >= 0x80, control bytes; every single byte value and every length of a range as sweeps): `hex encode` must print exactly 0x + lower-case digits + newline and `hex decode` of that very output must return the bytes. (b) the digits of such strings re-spelled: 0x present/absent, digit case lower/upper/random/alternating, 11 white-space layouts over the six ASCII white-space characters {space, tab, LF, VT, FF, CR} (ends, between bytes, between the two digits of a byte, wrapped lines, after the prefix, dense runs): must decode to the same bytes. (c) malformed inputs made from a well-formed spelling by one defect (digit dropped/added, non-hex character inserted/replacing a digit/at either end, second or misplaced prefix, bytes that are not UTF-8), every byte value at six positions, all 484 two-digit spellings, hand-written tables: error exit and empty stdout. Oracle: a reference decoder written from the property text (own nibble table; decides only space/tab/LF/CR, lower-case 0x with no white space inside). Undecided inputs (other white space, white space inside the prefix, 0X) are only required not to panic. (d) position independence: one character (ASCII or other white space, zero-width characters, an emoji) inserted into the same 8192..66000-digit string once so that its bytes straddle or touch a multiple of 4096 and once near an end: both inputs must have the same outcome (and a decided white-space character must be ignored). Non-trivial: data non-empty and not ASCII text (round trip: distinct by data; layouts: spelling differs from the canonical one, distinct by input text), malformed inputs with at least two hex digits (distinct by input).".into();
+    ctx.rule = "CLI subprocess runs of the overflow-checked build, input by stdin (default and explicit `-`), by file (with decoy stdin), and - in a fixed table of lengths 0..70000 and malformed texts - by paths that are not regular files (/dev/stdin, a FIFO). (a) byte strings of length 0..=4096 (uniform bytes; all-0, all-ff, every byte value in turn, text, white-space bytes, hex-looking text, UTF-8, trailing line ends, bytes >= 0x80, control bytes; every single byte value and every length of a range as sweeps): `hex encode` must print exactly 0x + lower-case digits + newline and `hex decode` of that very output must return the bytes. (b) the digits of such strings re-spelled: 0x present/absent, digit case lower/upper/random/alternating, 11 white-space layouts over the six ASCII white-space characters {space, tab, LF, VT, FF, CR} (ends, between bytes, between the two digits of a byte, wrapped lines, after the prefix, dense runs): must decode to the same bytes. (c) malformed inputs made from a well-formed spelling by one defect (digit dropped/added, non-hex character inserted/replacing a digit/at either end, second or misplaced prefix, bytes that are not UTF-8), every byte value at six positions, all 484 two-digit spellings, hand-written tables: error exit and empty stdout. Oracle: a reference decoder written from the property text (own nibble table; decides the six ASCII white-space characters - also between the 0 and the x of the prefix - and the lower-case 0x). Undecided inputs (other white space, 0X) are only required not to panic. (d) position independence: one character (ASCII or other white space, zero-width characters, an emoji) inserted into the same 8192..66000-digit string once so that its bytes straddle or touch a multiple of 4096 and once near an end: both inputs must have the same outcome (and a decided white-space character must be ignored). Non-trivial: data non-empty and not ASCII text (round trip: distinct by data; layouts: spelling differs from the canonical one, distinct by input text), malformed inputs with at least two hex digits (distinct by input).".into();
     ctx.assumptions = vec![
         "exit 255 or 2 without panic text is an ordinary error; nothing is required of stderr".into(),
-        "white space other than the six ASCII characters space, tab, LF, VT, FF, CR (that is, non-ASCII Unicode white space, zero-width characters, 0x1c-0x1f), white space inside the 0x prefix and an upper-case 0X prefix are not decided by the property (checked for absence of panic only)".into(),
+        "white space other than the six ASCII characters space, tab, LF, VT, FF, CR (that is, non-ASCII Unicode white space, zero-width characters, 0x1c-0x1f) and an upper-case 0X prefix are not decided by the property (checked for absence of panic only)".into(),
         "the observed executable is the overflow-checked release build".into(),
     ];
     for (text, bytes) in FIXED_VALID {
@@ -1039,6 +1038,18 @@ pub fn run(ctx: &mut Ctx) {
         .collect();
     ctx.run_cases("layout-fixed", &fixed, judge_decode);
     ctx.run_cases("pair-sweep", &pair_sweep(), judge_decode);
+    // white space inside the prefix itself
+    let mut split = vec![];
+    for (wi, ws) in WS.iter().enumerate() {
+        for (li, len) in [0usize, 1, 2, 33].iter().enumerate() {
+            let data = Prng::new(ctx.sub_seed("prefix-split", (wi * 10 + li) as u64)).bytes(*len);
+            let digits = if wi % 2 == 0 { hex_lower(&data) } else { hex_lower(&data).to_uppercase() };
+            let lead = if li % 2 == 1 { *ws } else { "" };
+            let text = format!("{lead}0{ws}x{}{digits}", if li == 3 { *ws } else { "" });
+            split.push(Decode::new((wi + li) as u8, text.as_bytes(), Model { data_hex: Some(hex_lower(&data)), prefix: true, defect: Some("white-space-inside-prefix".into()), ..Model::default() }));
+        }
+    }
+    ctx.run_cases("layout-fixed", &split, judge_decode);
     ctx.exhaustive_parts.push("all 484 two-digit spellings over [0-9a-fA-F]".into());
 
     // (c)
